@@ -188,6 +188,10 @@ pub fn run(r: &Report) {
                 r.machinery_error(format!("operation {} exists in {} but not in std+half", op, cfg));
                 continue;
             };
+            if recs.len() == 1 && recs[0].class == 200 && brecs.len() != 1 {
+                r.fail(sub, None, json!({"configuration": cfg, "op": op}), "the operation panicked in this configuration (it completes in std+half)");
+                continue;
+            }
             if brecs.len() != recs.len() {
                 r.machinery_error(format!("operation {}: {} records in {} but {} in std+half", op, recs.len(), cfg, brecs.len()));
                 continue;
@@ -257,7 +261,7 @@ pub fn skipcheck(r: &Report) {
                 let out = String::from_utf8_lossy(&o.stdout);
                 for l in out.lines() {
                     if let Some(rest) = l.strip_prefix("SKIP-VIOLATION ") {
-                        r.fail(&sub, None, json!({"configuration": cfg, "case": rest}), "skip() ended at a wrong position, failed where it must not, or accepted a strict prefix");
+                        r.fail(&sub, None, json!({"configuration": cfg, "case": rest}), "skip() ended at a wrong position, failed where it must not, accepted a strict prefix, or panicked");
                     }
                     if let Some(rest) = l.strip_prefix("SKIP-SUMMARY ") {
                         let kv: BTreeMap<&str, &str> = rest.split(' ').filter_map(|p| p.split_once('=')).collect();
